@@ -691,9 +691,21 @@ def _check_ops(sp, groups):
             # after a callback exception propagated the statement only demands (C05) that process()
             # does not keep failing because of deletion bookkeeping (one KeyError is legitimate after
             # a delete_entity of an id that may not exist)
+            if t[0] == 'enable' or not sp.enabled:
+                # callbacks were postponed or released that the oracle did not follow (no snapshot since the
+                # exception): from here on the scenario is judged by the agreement of the queries only
+                sp.reentered = True
+                if t[0] == 'enable':
+                    sp.enabled = bool(int(t[1]))
+                    if sp.enabled:
+                        sp.pending, sp.pending_unknown = [], res != 'ok'
             if t[0] == 'delete' and not int(t[2]):
                 sp.failed = 'deleted'
+            elif t[0] == 'create' and t[1] == 'auto':
+                sp.counter_unknown = True       # an identifier was drawn that the oracle did not see
             elif t[0] == 'process':
+                if sp.sweeps:
+                    sp.sweeps.pop(0)        # (the hint of this frame: keep the later ones aligned)
                 # (callbacks that call back into the world may ask for deletions of their own at any time)
                 if res == 'raised KeyError' and sp.failed != 'deleted' and not sp.reentered:
                     return [{'sig': 'process-keeps-failing',
